@@ -169,6 +169,95 @@ fn gen_case(r: &mut Rng, out: &mut Out, len: usize) {
     });
 }
 
+/// Policy that lets the first `max` datagrams through and drops the rest: a reply storm between the
+/// nodes (which needs no timer and would never let the simulated clock advance) ends after `max`.
+struct Capped {
+    max: u64,
+}
+impl crate::simnet::Policy for Capped {
+    fn decide(&mut self, _: usize, _: usize, _: &[u8], seq: u64) -> crate::simnet::Verdict {
+        if seq < self.max {
+            crate::simnet::Verdict::Deliver
+        } else {
+            crate::simnet::Verdict::Drop
+        }
+    }
+}
+
+/// `sys` cases: two real `Matter` nodes (transport only, nobody accepts exchanges) on the simulated
+/// network; unsolicited datagrams are injected and the wire is watched.
+///  `inj <from> <to> <hex>`  datagram appears at node `to` as if sent by node `from`  => ok
+///  `run <ms>`               both transports run for `ms` virtual ms  => `sent <by node 0> <by node 1>` (totals so far)
+fn run_sys(out: &mut Out, ops: &[String]) {
+    use crate::simnet::{run_sim, SimNet};
+    use embassy_futures::select::select;
+    use rs_matter::crypto::test_only_crypto;
+    use rs_matter::dm::devices::test::{TEST_DEV_ATT, TEST_DEV_COMM, TEST_DEV_DET};
+    use rs_matter::transport::network::NoNetwork;
+    use rs_matter::Matter;
+
+    embassy_time::MockDriver::get().reset();
+    let net = SimNet::new(2, Box::new(Capped { max: 60 }));
+    let n0 = Box::new(Matter::new(&TEST_DEV_DET, TEST_DEV_COMM, &TEST_DEV_ATT, 0));
+    let n1 = Box::new(Matter::new(&TEST_DEV_DET, TEST_DEV_COMM, &TEST_DEV_ATT, 0));
+    let crypto = test_only_crypto();
+    let s0 = net.socket(0);
+    let s1 = net.socket(1);
+    let mut fut = core::pin::pin!(select(n0.run(&crypto, &s0, &s0, NoNetwork), n1.run(&crypto, &s1, &s1, NoNetwork)));
+    for op in ops {
+        let w: Vec<&str> = op.split_whitespace().collect();
+        let r: String = match w.first().copied().unwrap_or("") {
+            "inj" => {
+                let from: usize = w.get(1).and_then(|t| t.parse().ok()).unwrap_or(1).min(1);
+                let to: usize = w.get(2).and_then(|t| t.parse().ok()).unwrap_or(0).min(1);
+                net.inject(from, to, &crate::proto::unhex(w.get(3).copied().unwrap_or("-")));
+                "ok".into()
+            }
+            "run" => {
+                let ms: u64 = w.get(1).and_then(|t| t.parse().ok()).unwrap_or(100).min(60_000);
+                let _ = run_sim(&net, fut.as_mut(), ms);
+                let log = net.log();
+                format!("sent {} {}", log.iter().filter(|l| l.from == 0).count(), log.iter().filter(|l| l.from == 1).count())
+            }
+            _ => "bad".into(),
+        };
+        out.stat(&format!("sys_{}", w.first().copied().unwrap_or("?")), 1);
+        out.op(op, &r);
+    }
+}
+
+/// an unsolicited datagram: plain header (flags, session id, counter, optional node ids), protocol
+/// header (exchange flags, opcode, exchange id, protocol id), 8 bytes of status-report-like payload
+fn gen_datagram(r: &mut Rng) -> String {
+    let mut b: Vec<u8> = Vec::new();
+    let dsiz = *r.pick(&[0u8, 1, 1, 2]);
+    let src = r.chance(1, 3);
+    b.push(dsiz | if src { 0x04 } else { 0 });
+    let sess: u16 = if r.chance(2, 3) { 0 } else { r.range(1, 65535) as u16 };
+    b.extend_from_slice(&sess.to_le_bytes());
+    b.push(0);
+    b.extend_from_slice(&(r.below(1 << 32) as u32).to_le_bytes());
+    if src {
+        b.extend_from_slice(&r.next().to_le_bytes());
+    }
+    match dsiz {
+        1 => b.extend_from_slice(&r.next().to_le_bytes()),
+        2 => b.extend_from_slice(&(r.below(65536) as u16).to_le_bytes()),
+        _ => {}
+    }
+    // exchange flags: I=1, A=2, R=4; never a new-session request (opcodes 0x20 / 0x30 excluded)
+    let xf = *r.pick(&[0u8, 0, 1, 2, 4, 5, 6]);
+    b.push(xf);
+    b.push(*r.pick(&[0x40u8, 0x40, 0x10, 0x21, 0x22, 0x31, 0x02, 0x05]));
+    b.extend_from_slice(&(r.below(65536) as u16).to_le_bytes());
+    b.extend_from_slice(&(*r.pick(&[0u16, 0, 1])).to_le_bytes());
+    if xf & 2 != 0 {
+        b.extend_from_slice(&(r.below(1 << 32) as u32).to_le_bytes());
+    }
+    b.extend_from_slice(&[1, 0, 0, 0, 0, 0, 4, 0]);
+    crate::proto::hex(&b)
+}
+
 pub fn gen(a: &Args) -> String {
     let mut r = Rng::new(a.seed);
     let mut out = Out::default();
@@ -180,6 +269,19 @@ pub fn gen(a: &Args) -> String {
         out.case(id, "tab");
         gen_case(&mut cr, &mut out, len);
     }
+    // system level: unsolicited datagrams between two real nodes
+    let n_sys = if a.thorough { 400 } else { 40 };
+    for id in 0..n_sys {
+        let mut cr = r.fork();
+        let mut ops = Vec::new();
+        for _ in 0..cr.range(1, 3) {
+            ops.push(format!("inj {} {} {}", cr.below(2), cr.below(2), gen_datagram(&mut cr)));
+            ops.push(format!("run {}", *cr.pick(&[10u64, 100, 1000])));
+        }
+        ops.push("run 2000".into());
+        out.case(n_cases + id, "sys");
+        run_sys(&mut out, &ops);
+    }
     out.finish()
 }
 
@@ -187,7 +289,12 @@ pub fn replay(a: &Args) -> String {
     let text = std::fs::read_to_string(a.input.as_ref().expect("--in")).expect("read input");
     let mut out = Out::default();
     for c in parse_cases(&text) {
-        tc::run_case(&mut out, &c);
+        if c.kind.starts_with("sys") {
+            out.case(c.id, &c.kind);
+            run_sys(&mut out, &c.ops);
+        } else {
+            tc::run_case(&mut out, &c);
+        }
     }
     out.finish()
 }
